@@ -103,8 +103,8 @@ def _toggle_cov(samples, width):
 
 def execute(sc, workdir):
     stop_at = sc.get("confirm_hint")
-    lines, nontrivial = [], []
-    stats = dict(cycles=0, configs=len(sc["cfgs"]))
+    lines, nontrivial, lock = [], [], []
+    stats = dict(cycles=0, configs=len(sc["cfgs"]), lock_lines=0, model_drift=0)
     tids = {}
     if sc["kind"] == "inj":
         tspec = "T_DfiMux"
@@ -150,6 +150,7 @@ def execute(sc, workdir):
             hdr = hdr or r["cfg"]
             lines.append(r["cfg"])
             lines.extend(r["lines"])
+            lock.extend(dfidut.rateconv_lock_lines(r["cfg"], r["lines"]))
             stats["cycles"] += len(r["lines"])
             nontrivial.append([c["n"], "run"])
             fast = [o for o in r["lines"] if o["k"] == "F"]
@@ -171,9 +172,19 @@ def execute(sc, workdir):
     hint = None
     if v["bad"] and not stop_at:
         hint = 400
+    drift = []
+    if lock:
+        # B2: the design model D_RateConv stepped over the same edges must show the same outputs (never a verdict)
+        lf = os.path.join(workdir, "lock.ndjson")
+        tlc.write_ndjson(lf, lock[0], lock)
+        drift = tlc.validate_trace("T_RateConvLock", lf, workdir)["bad"]
+        stats["lock_lines"], stats["model_drift"] = len(lock), len(drift)
+        if not os.environ.get("VERIF_KEEP"):
+            os.remove(lf)
     if not os.environ.get("VERIF_KEEP"):
         os.remove(tf)
-    sample = dict(kind=sc["kind"], configs=[c["n"] for c in sc["cfgs"]], info=v["info"], first_record=lines[1] if len(lines) > 1 else None)
+    sample = dict(kind=sc["kind"], configs=[c["n"] for c in sc["cfgs"]], info=v["info"], first_record=lines[1] if len(lines) > 1 else None,
+                  model_drift=drift[:3])
     return dict(bad=bad, evaluations=len(lines) - len(sc["cfgs"]), nontrivial=nontrivial, traces=len(sc["cfgs"]), sample=sample, stats=stats,
                 confirm_hint=hint)
 
@@ -186,6 +197,8 @@ def finding_key(entry, sc):
 
 
 def models(tier, seed):
+    if os.environ.get("VERIF_NOMODELS"):       # development aid (mutation campaigns): skip the TLC design models
+        return []
     q = tier == "quick"
 
     def cfg(ratio, wd, rd, m2s, s2m, bug="none", fin="FinTwo", P=1):
@@ -205,6 +218,10 @@ def models(tier, seed):
 
 
 def post(ctx, results, mresults):
+    drift = sum((r.get("stats") or {}).get("model_drift", 0) for _, r in results if not r.get("error"))
+    lockn = sum((r.get("stats") or {}).get("lock_lines", 0) for _, r in results if not r.get("error"))
+    if drift:
+        print("MODEL-DRIFT module=D_RateConv mismatches=%d (design-model result not bound to this tree; verdicts unaffected)" % drift)
     keys = set()
     for _, r in results:
         for k in (r.get("nontrivial") or []):
@@ -212,5 +229,6 @@ def post(ctx, results, mresults):
     inj = {c["n"] for c in INJ}
     full_hw = sorted(n for n in inj if all((n, "HW", f) in keys for f in ("address", "bank", "cs_n", "wrdata", "wrdata_mask", "cas_n", "ras_n", "we_n",
                                                                                  "cke", "odt", "reset_n", "act_n", "wrdata_en", "rddata_en")))
-    return dict(injector_configs_with_every_m2s_bit_toggled_in_hw_mode=full_hw, injector_configs=len(inj),
+    return dict(design_model_bound=(drift == 0 and lockn > 0), lockstep_lines=lockn, lockstep_mismatches=drift,
+                injector_configs_with_every_m2s_bit_toggled_in_hw_mode=full_hw, injector_configs=len(inj),
                 rate_converter_slots_with_command=len([k for k in keys if len(k) == 4 and k[1] == "slot"]))
